@@ -7,7 +7,7 @@ open Iodine Iodine.Client
 
 /-- the client has the first `o` bytes of the downstream packet `out` (seqno `sq`) and expects fragment `f` -/
 def CExpect (c : Cli) (out : List Nat) (sq : Int) (o f : Nat) : Prop :=
-  (f = 0 ∧ o = 0 ∧ sq = (c.inpkt.seqno + 1) % 8) ∨
+  (f = 0 ∧ o = 0 ∧ ∃ j : Nat, 1 ≤ j ∧ j ≤ 4 ∧ sq = (c.inpkt.seqno + j) % 8) ∨
   (f ≠ 0 ∧ c.inpkt.seqno = sq ∧ c.inpkt.fragment = (f : Int) - 1 ∧ c.inpkt.len = o ∧ c.inpkt.data.take o = out.take o)
 
 /-- `inpkt` after fragment `f` with the bytes `(out.drop o).take m` was appended -/
@@ -28,7 +28,7 @@ theorem append_expected (c : Cli) (h : Hdr) (buf out : List Nat) (sq : Int) (o m
   have hchunk : ((buf.take ((2 + m : Nat) : Int).toNat).drop 2) = (out.drop o).take m := by
     rw [Int.toNat_natCast, List.take_of_length_le (by omega), hbd]
   have hcl : ((out.drop o).take m).length = m := by rw [List.length_take, List.length_drop]; omega
-  rcases hE with ⟨h1, h2, h3⟩ | ⟨h1, h2, h3, h4, h5⟩
+  rcases hE with ⟨h1, h2, j, hj1, hj4, h3⟩ | ⟨h1, h2, h3, h4, h5⟩
   · subst h1; subst h2
     have hne : h.dnSeq ≠ c.inpkt.seqno := by rw [hh.1, h3]; omega
     refine ⟨{ c with inpkt := { c.inpkt with seqno := sChar h.dnSeq, fragment := sChar h.dnFrag, len := 0 } }, ?_, ?_⟩
